@@ -13,14 +13,16 @@ Definition precomputed_expected (n : nat) : list bytes :=
 Lemma precomputed_length : length precomputed_hashes = 24%nat.
 Proof. reflexivity. Qed.
 
-Lemma precomputed_table_eq : precomputed_hashes = precomputed_expected 24.
+(* every entry, however many the source declares (recomputed on every run) *)
+Lemma precomputed_table_eq : precomputed_hashes = precomputed_expected (length precomputed_hashes).
 Proof. vm_compute. reflexivity. Qed.
 
-Lemma precomputed_entry (i : N) :
-  i < 24 -> nth (N.to_nat i) precomputed_hashes [] = sha256 (x01 :: canon_n i).
+Lemma precomputed_entry_any (i : N) :
+  i < N.of_nat (length precomputed_hashes) ->
+  nth (N.to_nat i) precomputed_hashes [] = sha256 (x01 :: canon_n i).
 Proof.
-  intros Hi. rewrite precomputed_table_eq. unfold precomputed_expected.
-  assert (Hn : (N.to_nat i < 24)%nat) by lia.
+  intros Hi. rewrite precomputed_table_eq at 1. unfold precomputed_expected.
+  assert (Hn : (N.to_nat i < length precomputed_hashes)%nat) by lia.
   rewrite <- (N2Nat.id i) at 2.
   set (f := fun i0 : nat => sha256 (x01 :: canon_n (N.of_nat i0))).
   change (sha256 (x01 :: canon_n (N.of_nat (N.to_nat i)))) with (f (N.to_nat i)).
@@ -28,15 +30,17 @@ Proof.
   rewrite map_nth. f_equal. rewrite seq_nth by exact Hn. reflexivity.
 Qed.
 
+Lemma precomputed_entry (i : N) :
+  i < 24 -> nth (N.to_nat i) precomputed_hashes [] = sha256 (x01 :: canon_n i).
+Proof. intros Hi. apply precomputed_entry_any. rewrite precomputed_length. exact Hi. Qed.
+
 (* the form used as a hypothesis by the generic theorems *)
 Definition table_ok (H : bytes -> bytes) : Prop :=
   forall v : N, v < N.of_nat (length precomputed_hashes) ->
     nth (N.to_nat v) precomputed_hashes [] = H (x01 :: small_bytes v).
 
 Lemma table_ok_sha256 : table_ok sha256.
-Proof.
-  intros v Hv. rewrite precomputed_length in Hv. apply precomputed_entry. exact Hv.
-Qed.
+Proof. intros v Hv. apply precomputed_entry_any. exact Hv. Qed.
 
 (* the mirror's use of the table: the U32 arm computes the reference hash of the small atom *)
 Lemma small_atom_hash_th (H : bytes -> bytes) (v : N) :
